@@ -164,26 +164,35 @@ def helper_args(rel, name):
     b = rel['betaup3']
     K = rel['Kdown3']
     a = rel['alpha']
+    # the tools are reachable as attributes and through brackets (rel['s_div']
+    # hands out the bound method): alternate between the two
+    if rel.calculation_count % 2:
+        class _B:
+            def __getattr__(self, n):
+                return rel[n]
+        R = _B()
+    else:
+        R = rel
     if name == 's_covd:u':
-        return lambda: rel.s_covd(b, 'u')
+        return lambda: R.s_covd(b, 'u')
     if name == 's_covd:dd':
-        return lambda: rel.s_covd(K, 'dd')
+        return lambda: R.s_covd(K, 'dd')
     if name == 's_div:uu':
-        return lambda: rel.s_div(rel['Kup3'], 'uu')
+        return lambda: R.s_div(rel['Kup3'], 'uu')
     if name == 's_curl:dd':
-        return lambda: rel.s_curl(K, 'dd')
+        return lambda: R.s_curl(K, 'dd')
     if name == 'Lie_beta:s_dd':
-        return lambda: rel.Lie_beta(K, 's_dd', weight=-2 / 3)
+        return lambda: R.Lie_beta(K, 's_dd', weight=-2 / 3)
     if name == 'Lie_beta:':
-        return lambda: rel.Lie_beta(a, '')
+        return lambda: R.Lie_beta(a, '')
     if name == 'st_covd:d':
-        return lambda: rel.st_covd(rel['ndown4'], np.zeros_like(rel['ndown4']), 'd')
+        return lambda: R.st_covd(rel['ndown4'], np.zeros_like(rel['ndown4']), 'd')
     if name == 'tetrad_base':
         return lambda: rel.tetrad_base()
     if name == 'null_vector_base':
         return lambda: rel.null_vector_base()
     if name == 'null_ray_expansion':
-        return lambda: rel.null_ray_expansion(rel.fd.r, direction='in')
+        return lambda: R.null_ray_expansion(rel.fd.r, direction='in')
     raise KeyError(name)
 
 
